@@ -13,7 +13,7 @@ def run(ck):
         cases += wc.make_cases(ck, 250, small=False)
     ck.rule = ('end-to-end runs of kalign() (array API) and read+run+write (file API, 3 formats) on structured sequence families; '
                'model weave layer replayed on the implementation-observed task list and raw paths (path expansion, every merge, final rows '
-               'compared); extracted integrity_b evaluated on the implementation output; premises kpath_wfb/ops_fitb monitored on every '
+               'compared); extracted integrity_b evaluated on the implementation output; premises kpath_wfb/ops_fitb/path dimensions (TreePaths.build_tasks) monitored on every '
                'observed path. Non-trivial = accepted input whose alignment contains at least one gap; distinct by input+settings')
     res = wc.campaign(ck, cases)
     corr_bad, wit, prem_bad = [], [], []
